@@ -334,7 +334,22 @@ func checkMatrixCase(raw json.RawMessage) error {
 			g = n
 		case "setrow":
 			bits := parseRows(op.S)[0]
-			m.SetRow(a[0], rowArray(bits))
+			row := rowArray(bits)
+			if len(a) > 1 && a[1] > 0 {
+				// a caller's row buffer with more 32-bit words than one matrix row (taken from a wider
+				// matrix, say), the surplus words dirty: only this row may change
+				stride := (g.w + 31) / 32 * 32
+				row = gozxing.NewBitArray(stride + 32*a[1])
+				for i, v := range bits {
+					if v {
+						row.Set(i)
+					}
+				}
+				for i := stride; i < row.GetSize(); i++ {
+					row.Set(i)
+				}
+			}
+			m.SetRow(a[0], row)
 			copy(g.b[a[0]], bits)
 		case "reparse":
 			pairs := [][2]string{{"X ", "  "}, {"1", "0"}, {"#", "."}}
@@ -455,7 +470,7 @@ func genMatrixCase(t *rapid.T, w, h int) (MCase, bool) {
 		case "rot90":
 			cw, ch = ch, cw
 		case "setrow":
-			op.A = []int{rapid.IntRange(0, ch-1).Draw(t, "y")}
+			op.A = []int{rapid.IntRange(0, ch-1).Draw(t, "y"), rapid.SampledFrom([]int{0, 0, 1, 2}).Draw(t, "surplus_words")}
 			op.S = bitString(t, cw, "row")
 		case "reparse":
 			op.A = []int{rapid.IntRange(0, 5).Draw(t, "pair")}
@@ -712,6 +727,12 @@ func checkArrayCase(raw json.RawMessage) error {
 				}
 			}
 		case "appendarray":
+			if len(x) > 0 && x[0] == 2 {
+				// the array appended to itself
+				a.AppendBitArray(a)
+				b = append(b, append([]bool(nil), b...)...)
+				break
+			}
 			ob := parseRows(op.S + "")[0]
 			if op.S == "" {
 				ob = nil
@@ -832,6 +853,11 @@ func genArrayCase(t *rapid.T, size int) (ACase, bool) {
 		case "appendarray":
 			if cur >= 260 {
 				continue
+			}
+			if cur > 0 && cur <= 130 && rapid.IntRange(0, 4).Draw(t, "self") == 0 {
+				op.A = []int{2}
+				cur += cur
+				break
 			}
 			m := rapid.IntRange(0, 70).Draw(t, "olen")
 			if m > 0 {
